@@ -265,6 +265,20 @@ pub fn run(args: &Args, rep: &mut Report) {
                 rep.sample(json!({"vantage": format!("{vp:?}"), "event": serde_json::to_value(e).unwrap_or(Value::Null)}));
             }
         }
+        // (a') a handshake that fails with a TLS alert (the client trusts another CA): close events with crypto error codes
+        if i == 0 {
+            let mut bad = c02::gen_bounded(&mut r, sseed ^ 0xbadca);
+            bad.spec.params.wrong_ca = true;
+            bad.spec.c2s = crate::sim::FaultProfile::default();
+            bad.spec.s2c = crate::sim::FaultProfile::default();
+            bad.spec.deadline = std::time::Duration::from_secs(5);
+            bad.spec.clean_close = false;
+            bad.spec.log = LogMode::Capture;
+            let out = scenario::run(&bad.spec);
+            rep.evaluations += 1;
+            rep.count("tls_alert_scenarios");
+            check_outcome_events(rep, &out, &bad.to_json());
+        }
         // (b) differential
         differential(rep, &mut r, sseed ^ 0xd1ff);
         rep.evaluations += 5;
